@@ -557,6 +557,9 @@ impl Database {
                     }
                     if (*provided_val as u64) > auto_increment_max {
                         auto_increment_max = *provided_val as u64;
+                        // later rows of this statement must be generated above
+                        // the explicit value, not only later statements
+                        auto_increment_current = auto_increment_max;
                     }
                 }
             }
